@@ -112,6 +112,7 @@ func runWorker(chk *checks.Check, tier string, seed int64, shard, nshards, secs 
 	} else {
 		runtime.GOMAXPROCS(2)
 	}
+	checks.StartBlockWatch(2 * time.Minute)
 	x := core.NewCtx(chk.ID, tier, seed, shard, nshards, time.Now().Add(time.Duration(secs)*time.Second))
 	x.Known = kf
 	x.Replays = replays
